@@ -237,6 +237,8 @@ def run_testbench(case, ob, site):
     regs0, mems0 = init_values(case, block)
     v = Vars()
     holder = {}
+    from .. import spec
+    assume = [z3.Not(d) for d in spec.run(block, K, v, reg_init=regs0, mem_init='default').double_write]
 
     def after(sim, t):
         holder['tracer'] = sim.tracer
@@ -334,7 +336,7 @@ def run_testbench(case, ob, site):
                               env[mp[w.name]] == to_bv(r.trace[w.name][t], w.bitwidth), site + ':tb-replay'))
     except vtrans.VTransError as e:
         ob.fact('emitted-module-is-well-formed', False, site + ':malformed', detail=str(e))
-    ob.prove_all(goals, r.pc, v)
+    ob.prove_all(goals, assume + r.pc, v)
 
 
 def run_case(case, ob, tier):
